@@ -68,6 +68,8 @@ impl<'de> Visitor<'de> for F64Visitor {
 #[derive(Debug)]
 pub struct SharedValue {
     value: UnsafeCell<f64>,
+    #[cfg(packing_verif)]
+    id: u64,
 }
 
 impl Serialize for SharedValue {
@@ -114,11 +116,15 @@ impl SharedValue {
     pub fn new(val: f64) -> SharedValue {
         SharedValue {
             value: UnsafeCell::new(val),
+            #[cfg(packing_verif)]
+            id: crate::verif_hooks::next_id(),
         }
     }
 
     /// Get the value of the variable being shared
     pub fn get_value(&self) -> f64 {
+        #[cfg(packing_verif)]
+        crate::verif_hooks::access(self.id, false);
         unsafe { *self.value.get() }
     }
 
@@ -149,6 +155,8 @@ impl SharedValue {
     /// ```
     ///
     pub fn set_value(&self, value: f64) {
+        #[cfg(packing_verif)]
+        crate::verif_hooks::access(self.id, true);
         unsafe {
             self.value.get().write(value);
         }
